@@ -185,8 +185,19 @@ def enum_two_step(tier):
 def hyp_cases(draw, tier):
     typed = draw(st.booleans())
     flavour = draw(st.sampled_from(["str", "str", "tuple", "dc", "obj_cb", "dictwrap", "obj_fwd"]))
-    case = draw(gen_ops.histories(typed=typed, max_ops=40 if tier == "quick" else 80, fresh=flavour != "str"))
+    case = draw(gen_ops.histories(typed=typed, max_ops=40 if tier == "quick" else 80, fresh=flavour != "str", big=8))
     case["flavour"] = flavour
+    return case
+
+
+@st.composite
+def big_cases(draw, tier):
+    """one to three operations on a BIG tree (see gen.big_specs), aimed at notable sibling positions"""
+    from checks.c01_wellformed import BIG_KINDS
+
+    typed = draw(st.sampled_from([False, False, True]))
+    case = draw(gen_ops.histories(typed=typed, max_ops=3, min_ops=1, kinds=BIG_KINDS, big=1))
+    case["flavour"] = draw(st.sampled_from(["str", "str", "obj_cb", "tuple"]))
     return case
 
 
@@ -194,4 +205,5 @@ PARTS = [
     Part("single-steps", run_history, enum=enum_cases),
     Part("two-step-clones", run_history, enum=enum_two_step),
     Part("histories", run_history, strategy=hyp_cases, n={"quick": 600, "thorough": 120000}),
+    Part("big-trees", run_history, strategy=big_cases, n={"quick": 300, "thorough": 20000}),
 ]
